@@ -22,6 +22,7 @@ type Case struct {
 	D       projkit.Def     `json:"d"`
 	WKTOpt  projkit.WKTOpts `json:"wkt_opt"`
 	Variant int             `json:"variant"`
+	Junk    bool            `json:"junk,omitempty"` // every transformer is asked for impossible positions before the real one
 	Lon     float64         `json:"lon"`
 	Lat     float64         `json:"lat"`
 	Name    string          `json:"name,omitempty"`
@@ -86,6 +87,7 @@ func gen(t *rapid.T) Case {
 			// free-text names as files have them: commas inside the quotes, or a single character
 			Names: rapid.SampledFrom([]int{0, 0, 0, 1, 1, 2}).Draw(t, "names")}
 		c.Variant = rapid.IntRange(0, 5).Draw(t, "variant")
+		c.Junk = rapid.IntRange(0, 2).Draw(t, "junk") == 1
 		c.Lon, c.Lat = projkit.GenPosition(t, c.D)
 		c.ViaShp = rapid.IntRange(0, 9).Draw(t, "viashp") == 0
 		// proj4js 2.3.12 does not read TOWGS84 clauses from WKT at all, so it is a third opinion for named datums only
@@ -173,12 +175,22 @@ func tr(src, dst *proj.SR, x, y float64) (float64, float64, error) {
 	if t == nil {
 		return x, y, nil
 	}
+	if junkFirst {
+		// positions the transformer has to refuse (or answer with NaN) come first; what it says to them is its business,
+		// but the position that follows is transformed as if they had never been asked
+		for _, j := range [][2]float64{{math.NaN(), math.NaN()}, {math.Inf(1), 0}, {0, 95}, {7, -95}, {1e30, 1e30}} {
+			t(j[0], j[1])
+		}
+	}
 	ox, oy, err := t(x, y)
 	if err == nil && (math.IsNaN(ox) || math.IsNaN(oy)) {
 		err = fmt.Errorf("NaN result")
 	}
 	return ox, oy, err
 }
+
+// junkFirst: every transformer of the current case is asked for five impossible positions before the real one
+var junkFirst bool
 
 func mustParse(s string) (*proj.SR, error) {
 	sr, err := proj.Parse(s)
@@ -415,6 +427,8 @@ func runEqual(c Case) (v vkit.Verdict) {
 }
 
 func run(c Case) vkit.Verdict {
+	junkFirst = c.Junk
+	defer func() { junkFirst = false }()
 	switch c.Kind {
 	case "wkt":
 		return runWKT(c)
